@@ -73,6 +73,12 @@ type World struct {
 	// Interp: statically resolved callees that may be evaluated (pure predicates). Depth-limited.
 	Interp func(fn *ssa.Function) bool
 
+	// StartBlock/StartIndex: begin the analysis in the middle of the function (right behind an instruction), with everything that was
+	// computed before unknown. Reentered reports whether StartBlock is reached again from one of its predecessors.
+	StartBlock *ssa.BasicBlock
+	StartIndex int
+	Reentered  bool
+
 	depth int
 	val   map[ssa.Value]wLat
 	Reach map[*ssa.BasicBlock]bool
@@ -124,7 +130,13 @@ func (w *World) get(v ssa.Value) wLat {
 	case *ssa.FreeVar, *ssa.Global, *ssa.Function, *ssa.Builtin:
 		return wTop
 	}
-	return w.val[v]
+	if l, ok := w.val[v]; ok {
+		return l
+	}
+	if w.StartBlock != nil {
+		return wTop // computed before the starting point
+	}
+	return wLat{}
 }
 
 func wBool(b bool) wLat { return wConst(constant.MakeBool(b)) }
@@ -193,7 +205,11 @@ func (w *World) Run(args ...wLat) {
 	if len(fn.Blocks) == 0 {
 		return
 	}
-	w.Reach[fn.Blocks[0]] = true
+	if w.StartBlock != nil {
+		w.Reach[w.StartBlock] = true
+	} else {
+		w.Reach[fn.Blocks[0]] = true
+	}
 	cellKey := func(c wCell) string { return fmt.Sprintf("%p%s", c.alloc, c.path) }
 	for iter := 0; iter < 200; iter++ {
 		changed := false
@@ -237,7 +253,18 @@ func (w *World) Run(args ...wLat) {
 					}
 				}
 			}
-			for _, in := range b.Instrs {
+			startIdx := 0
+			if b == w.StartBlock {
+				if first {
+					startIdx = w.StartIndex // no predecessor reaches it (yet): the run begins behind the starting instruction
+				} else {
+					w.Reentered = true
+				}
+			}
+			for ii, in := range b.Instrs {
+				if ii < startIdx {
+					continue
+				}
 				switch x := in.(type) {
 				case *ssa.Phi:
 					var l wLat
@@ -272,7 +299,9 @@ func (w *World) Run(args ...wLat) {
 						}
 						set(x, l)
 					case token.MUL:
-						if c, ok := cellOf(x.X); ok {
+						if l, ok := w.globalArrayLoad(x); ok {
+							set(x, l)
+						} else if c, ok := cellOf(x.X); ok {
 							if l, ok := mem[cellKey(c)]; ok {
 								set(x, l)
 							} else if w.CellDefault != nil {
@@ -367,6 +396,14 @@ func (w *World) Run(args ...wLat) {
 					if !w.Reach[b.Succs[0]] {
 						w.Reach[b.Succs[0]] = true
 						changed = true
+					}
+				case *ssa.Lookup:
+					set(x, w.lookupConst(x))
+				case *ssa.Extract:
+					if lk, ok := x.Tuple.(*ssa.Lookup); ok && lk.CommaOk {
+						set(x, w.lookupPart(lk, x.Index))
+					} else {
+						set(x, wTop)
 					}
 				default:
 					if v, ok := in.(ssa.Value); ok {
@@ -476,4 +513,163 @@ func pureFunc(fn *ssa.Function, depth int) bool {
 		}
 	})
 	return ok
+}
+
+// Constant tables: a package-level map or array that its package's initialiser fills with constant keys and values and that no
+// other function of the program stores to is read like a switch.
+
+type constTable struct {
+	vals map[string]constant.Value // key (exact string) -> value; only entries whose value is a constant
+	keys map[string]bool           // every key written
+	ok   bool
+}
+
+var constTables = map[*ssa.Global]*constTable{}
+
+func tableOf(g *ssa.Global) *constTable {
+	if t, ok := constTables[g]; ok {
+		return t
+	}
+	t := &constTable{vals: map[string]constant.Value{}, keys: map[string]bool{}}
+	constTables[g] = t
+	if g.Pkg == nil {
+		return t
+	}
+	init := g.Pkg.Func("init")
+	if init == nil {
+		return t
+	}
+	t.ok = true
+	var mapVal ssa.Value
+	instrsOf(init, func(in ssa.Instruction) {
+		if st, ok := in.(*ssa.Store); ok && st.Addr == ssa.Value(g) {
+			mapVal = st.Val
+		}
+	})
+	instrsOf(init, func(in ssa.Instruction) {
+		switch x := in.(type) {
+		case *ssa.MapUpdate:
+			if mapVal != nil && x.Map == mapVal {
+				k, ok := x.Key.(*ssa.Const)
+				if !ok || k.Value == nil {
+					t.ok = false
+					return
+				}
+				t.keys[k.Value.ExactString()] = true
+				if v, ok := x.Value.(*ssa.Const); ok && v.Value != nil {
+					t.vals[k.Value.ExactString()] = v.Value
+				}
+			}
+		case *ssa.Store:
+			if ia, ok := x.Addr.(*ssa.IndexAddr); ok && ia.X == ssa.Value(g) {
+				k, ok := ia.Index.(*ssa.Const)
+				if !ok || k.Value == nil {
+					t.ok = false
+					return
+				}
+				t.keys[k.Value.ExactString()] = true
+				if v, ok := x.Val.(*ssa.Const); ok && v.Value != nil {
+					t.vals[k.Value.ExactString()] = v.Value
+				}
+			}
+		}
+	})
+	// written anywhere else?
+	for _, m := range g.Pkg.Members {
+		f, ok := m.(*ssa.Function)
+		if !ok || f == init {
+			continue
+		}
+		fs := append([]*ssa.Function{f}, f.AnonFuncs...)
+		for _, ff := range fs {
+			instrsOf(ff, func(in ssa.Instruction) {
+				switch x := in.(type) {
+				case *ssa.MapUpdate:
+					if r, ok := traceAddr(x.Map).Root.(*ssa.Global); ok && r == g {
+						t.ok = false
+					}
+				case *ssa.Store:
+					if r, ok := traceAddr(x.Addr).Root.(*ssa.Global); ok && r == g {
+						t.ok = false
+					}
+				}
+			})
+		}
+	}
+	return t
+}
+
+func globalOfLoad(v ssa.Value) *ssa.Global {
+	if u, ok := v.(*ssa.UnOp); ok && u.Op == token.MUL {
+		g, _ := u.X.(*ssa.Global)
+		return g
+	}
+	return nil
+}
+
+func (w *World) lookupConst(x *ssa.Lookup) wLat {
+	if x.CommaOk {
+		return wTop
+	}
+	return w.lookupPart(x, 0)
+}
+
+func (w *World) lookupPart(x *ssa.Lookup, part int) wLat {
+	g := globalOfLoad(x.X)
+	if g == nil {
+		return wTop
+	}
+	k := w.get(x.Index)
+	if k.k == 0 {
+		return wLat{}
+	}
+	t := tableOf(g)
+	if k.k != 1 || !t.ok {
+		return wTop
+	}
+	key := k.v.ExactString()
+	if part == 1 {
+		return wBool(t.keys[key])
+	}
+	if v, ok := t.vals[key]; ok {
+		return wConst(v)
+	}
+	return wTop
+}
+
+// globalArrayLoad folds *(&table[i]) for a constant table and a constant index.
+func (w *World) globalArrayLoad(x *ssa.UnOp) (wLat, bool) {
+	ia, ok := x.X.(*ssa.IndexAddr)
+	if !ok {
+		return wLat{}, false
+	}
+	g, ok := ia.X.(*ssa.Global)
+	if !ok {
+		return wLat{}, false
+	}
+	k := w.get(ia.Index)
+	if k.k == 0 {
+		return wLat{}, true
+	}
+	t := tableOf(g)
+	if k.k != 1 || !t.ok {
+		return wTop, true
+	}
+	if v, ok := t.vals[k.v.ExactString()]; ok {
+		return wConst(v), true
+	}
+	if at, ok := deref(g.Type()).Underlying().(*types.Array); ok && !t.keys[k.v.ExactString()] {
+		// an element the literal does not mention is the zero value
+		if b, ok := at.Elem().Underlying().(*types.Basic); ok {
+			switch {
+			case b.Info()&types.IsInteger != 0:
+				return wConst(constant.MakeInt64(0)), true
+			case b.Info()&types.IsBoolean != 0:
+				return wBool(false), true
+			case b.Info()&types.IsString != 0:
+				return wConst(constant.MakeString("")), true
+			}
+		}
+	}
+	return wTop, true
 }
